@@ -7,20 +7,22 @@ EXTENDS C11_Relay, Json
 CONSTANTS Topo,   \* "rsvp" | "asn" | "conn" | "data"
           ACLOn   \* the ACL refuses something (FALSE: everything is allowed)
 
-\* link -> <<peer, address>>
+\* link -> <<peer, address, Stat().Limited>>.  "relay": through an ordinary (limiting) relay; "relayu": through a
+\* relay without limits (the connection is NOT flagged Limited although its address is a /p2p-circuit address)
 MCTopo ==
-  CASE Topo = "rsvp" -> [a1 |-> <<"p1", "ip1">>, b1 |-> <<"p1", "ip2">>, a2 |-> <<"p2", "ip2">>,
-                         a3 |-> <<"p3", "ip1">>, r3 |-> <<"p3", "relay">>]
-    [] Topo = "asn"  -> [a1 |-> <<"p1", "v6a">>, n1 |-> <<"p1", "noip">>, a2 |-> <<"p2", "v6b">>,
-                         b2 |-> <<"p2", "v6c">>, a3 |-> <<"p3", "v6a">>, b3 |-> <<"p3", "v6n">>]
-    [] Topo = "conn" -> [a1 |-> <<"p1", "ip1">>, r1 |-> <<"p1", "relay">>, a2 |-> <<"p2", "ip2">>,
-                         b2 |-> <<"p2", "ip1">>, a3 |-> <<"p3", "ip3">>]
-    [] Topo = "data" -> [a1 |-> <<"p1", "ip1">>, a2 |-> <<"p2", "ip2">>]
+  CASE Topo = "rsvp" -> [a1 |-> <<"p1", "ip1", FALSE>>, b1 |-> <<"p1", "ip2", FALSE>>, a2 |-> <<"p2", "ip2", FALSE>>,
+                         a3 |-> <<"p3", "ip1", FALSE>>, r3 |-> <<"p3", "relay", TRUE>>, u3 |-> <<"p3", "relayu", FALSE>>]
+    [] Topo = "asn"  -> [a1 |-> <<"p1", "v6a", FALSE>>, n1 |-> <<"p1", "noip", FALSE>>, a2 |-> <<"p2", "v6b", FALSE>>,
+                         b2 |-> <<"p2", "v6c", FALSE>>, a3 |-> <<"p3", "v6a", FALSE>>, b3 |-> <<"p3", "v6n", FALSE>>]
+    [] Topo = "conn" -> [a1 |-> <<"p1", "ip1", FALSE>>, r1 |-> <<"p1", "relay", TRUE>>, u1 |-> <<"p1", "relayu", FALSE>>,
+                         a2 |-> <<"p2", "ip2", FALSE>>, b2 |-> <<"p2", "ip1", FALSE>>, a3 |-> <<"p3", "ip3", FALSE>>]
+    [] Topo = "data" -> [a1 |-> <<"p1", "ip1", FALSE>>, a2 |-> <<"p2", "ip2", FALSE>>]
 
 MCLinks == DOMAIN MCTopo
 MCPeers == {MCTopo[l][1] : l \in MCLinks}
 MCLinkPeer == [l \in MCLinks |-> MCTopo[l][1]]
 MCLinkAddr == [l \in MCLinks |-> MCTopo[l][2]]
+MCLinkLimited == [l \in MCLinks |-> MCTopo[l][3]]
 MCIPs == {"ip1", "ip2", "ip3", "v6a", "v6b", "v6c", "v6n"}
 \* v6a and v6b are addresses of one autonomous system, v6c of another, v6n (and every IPv4) of none
 MCASNOf == [a \in MCIPs |-> CASE a \in {"v6a", "v6b"} -> 1 [] a = "v6c" -> 2 [] OTHER -> 0]
